@@ -395,6 +395,47 @@ func C12Step(si *engine.StepInfo, pre, post *Snap) []engine.Finding {
 	if si.Op.EndTo == 0 {
 		return nil
 	}
+	// partial give-up: "the unfinished part is cancelled and its price refunded" — the part, not more
+	for _, oid := range post.OrderIds {
+		o, ok := pre.Orders[oid]
+		q := post.Orders[oid]
+		if !ok || o.Operation == 3 || q.Replica >= o.Replica || o.Status != ordertypes.OrderCompleted || q.Status != ordertypes.OrderCompleted {
+			continue
+		}
+		stored := int32(0)
+		for _, id := range q.Shards {
+			if sh, ok := post.Shards[id]; ok && sh.Status == ordertypes.ShardCompleted {
+				stored++
+			}
+		}
+		// completed shards of the order in the pre-state that expired in this very step do not count as given up
+		expired := false
+		for _, id := range o.Shards {
+			if sh, ok := pre.Shards[id]; ok && sh.Status == ordertypes.ShardCompleted && int64(sh.CreatedAt+sh.Duration) <= si.Op.EndTo {
+				expired = true
+			}
+		}
+		if expired {
+			continue
+		}
+		if q.Replica != stored {
+			out = append(out, fd("C12", "partial-give-up-wrong-replica-count", cmp(q.Replica > stored), fmt.Sprintf("order %d: the timeout mechanism reduced the replica count from %d to %d, but %d replicas are stored", oid, o.Replica, q.Replica, stored)))
+		}
+		if want := quote(q); q.Replica == stored && !q.Amount.Amount.Equal(want) {
+			out = append(out, fd("C12", "partial-give-up-wrong-amount", cmp(q.Amount.Amount.GT(want)), fmt.Sprintf("order %d: after giving up %d replica(s) the order's amount is %s; %d stored replica(s) cost %s", oid, o.Replica-q.Replica, q.Amount.Amount, stored, want)))
+		}
+		wantRefund := o.Amount.Amount.Sub(quote(ordertypes.Order{Size_: q.Size_, Replica: stored, Duration: q.Duration}))
+		got := sdk.ZeroInt()
+		payer := payerOf(si.W, si.PreCtx, o)
+		for _, f := range si.Res.Flows {
+			if isModule(f.From) != "" && f.To == payer && isModule(f.To) == "" {
+				got = got.Add(f.Amt)
+			}
+		}
+		if !got.Equal(wantRefund) && len(pre.Orders) == 1 {
+			out = append(out, fd("C12", "partial-give-up-wrong-refund", cmp(got.GT(wantRefund)), fmt.Sprintf("order %d: %d of %d replicas given up; refunded %s, the price of the unfulfilled replicas is %s", oid, o.Replica-stored, o.Replica, got, wantRefund)))
+		}
+	}
 	// orders examined by the timeout mechanism in this step
 	for _, hh := range sortedU64(pre.Timeout) {
 		if int64(hh) < pre.H || int64(hh) > si.Op.EndTo {
